@@ -48,6 +48,7 @@ psRes_t psVerifySig(psPool_t *pool,
 {
 # ifdef USE_RSA
     unsigned char out[SHA512_HASH_SIZE] = { 0 };
+    unsigned char *sigCopy = NULL;
 # endif
 # ifdef USE_ECC
     int32 eccRet;
@@ -87,12 +88,22 @@ psRes_t psVerifySig(psPool_t *pool,
 #  endif /* USE_PKCS1_PSS */
         {
 
+            /* The RSA public key operation works in place: run it on a
+               copy so that the caller's (const) signature - e.g. the
+               signature field of a parsed certificate - stays intact. */
+            sigCopy = psMalloc(pool, sigLen ? sigLen : 1);
+            if (sigCopy == NULL)
+            {
+                rc = PS_MEM_FAIL;
+                goto out;
+            }
+            Memcpy(sigCopy, sig, sigLen);
             if (opts && opts->msgIsDigestInfo)
             {
                 /* RSA PKCS 1.5 verification of TLS signed elements. */
                 rc = pubRsaDecryptSignedElementExt(pool,
                         &key->key.rsa,
-                        (unsigned char *) sig,
+                        sigCopy,
                         sigLen,
                         out,
                         msgInLen,
@@ -111,7 +122,7 @@ psRes_t psVerifySig(psPool_t *pool,
                 /* Standard RSA PKCS #1.5 verification. */
                 rc = psRsaDecryptPub(pool,
                         &key->key.rsa,
-                        (unsigned char *) sig,
+                        sigCopy,
                         sigLen,
                         out,
                         msgInLen,
@@ -190,6 +201,12 @@ psRes_t psVerifySig(psPool_t *pool,
     *verifyResult = PS_TRUE;
 
 out:
+# ifdef USE_RSA
+    if (sigCopy != NULL)
+    {
+        psFree(sigCopy, pool);
+    }
+# endif
     return rc;
 }
 
